@@ -18,14 +18,16 @@ open RtcModel.Generated RtcModel.DtlsRecord RtcModel.DtlsHs RtcModel.Drv RtcMode
 
 /-- interpretation of handshake bodies used after the handshake: only Finished needs a value (the
 verify_data the endpoint expects, computed by the harness); every other decoder is offered bodies
-that do not parse. -/
-def drvCrypto (vdClient vdServer : Bytes) : Crypto where
+that do not parse, except one foreign Certificate (the session's client pins its server's fingerprint — `[0]` here —,
+the server pins nothing). -/
+def drvCrypto (vdClient vdServer otherCert : Bytes) : Crypto where
   chDecode _ := none
   shDecode _ := none
   hvrOk _ := false
-  certDecode _ := none
-  digest _ := []
-  pkOk _ := false
+  -- one decodable Certificate body is offered: some other party's certificate (usable key, digest ≠ the pinned one)
+  certDecode b := if b = otherCert ∧ otherCert ≠ [] then some [[0xA7]] else none
+  digest _ := [1]
+  pkOk _ := true
   skeDecode _ := none
   sigOk _ _ _ _ := false
   ckeDecode _ := none
@@ -48,7 +50,7 @@ def connected (isClient : Bool) (k : Keys) : Ep :=
              lastFlight := some fl, localSecret := false,
              peerPub := some [], peerCert := if isClient then some [] else none,
              clientRandom := some k.cr, serverRandom := some k.sr, keys := some k,
-             ems := true, skeVerified := isClient } }
+             ems := true, skeVerified := isClient, expectedFp := if isClient then some [0] else none } }
 
 def stepOp (C : Crypto) (e : Ep) (t : String) : Option (Ep × String) :=
   match fields t with
@@ -81,11 +83,11 @@ def handle (stream : String) (args : List String) : String :=
   match stream, args with
   | "sess", ini :: ops =>
     match fields ini with
-    | ["init", role, ms, cr, sr, cwk, swk, cwi, swi, vdc, vds] =>
-      match unhex ms, unhex cr, unhex sr, unhex cwk, unhex swk, unhex cwi, unhex swi, unhex vdc, unhex vds with
-      | some ms, some cr, some sr, some cwk, some swk, some cwi, some swi, some vdc, some vds =>
+    | ["init", role, ms, cr, sr, cwk, swk, cwi, swi, vdc, vds, oc] =>
+      match unhex ms, unhex cr, unhex sr, unhex cwk, unhex swk, unhex cwi, unhex swi, unhex vdc, unhex vds, unhex oc with
+      | some ms, some cr, some sr, some cwk, some swk, some cwi, some swi, some vdc, some vds, some oc =>
         let k : Keys := ⟨ms, cr, sr, cwk, swk, cwi, swi⟩
-        let C := drvCrypto vdc vds
+        let C := drvCrypto vdc vds oc
         let rec go (e : Ep) (ops : List String) (acc : List String) : List String :=
           match ops with
           | [] => acc.reverse
@@ -94,7 +96,7 @@ def handle (stream : String) (args : List String) : String :=
             | none => ("bad-op" :: acc).reverse
             | some (e', o) => go e' rest (o :: acc)
         " ".intercalate (go (connected (role = "c") k) ops [])
-      | _, _, _, _, _, _, _, _, _ => "bad-init"
+      | _, _, _, _, _, _, _, _, _, _ => "bad-init"
     | _ => "bad-init"
   | "conc", [a] =>
     match (fields a).map String.toNat? with
